@@ -134,9 +134,10 @@ def _poly_events(case):
     for en in case["embs"]:
         emb = EMBEDDINGS[en]
         loaded_cache = {}
-        for orient, start, idx in variants:
+        for vi, (orient, start, idx) in enumerate(variants):
             verts = [[xs[ix], yl[iy]] for ix, iy in idx]
-            for container in ("points", "numpy"):
+            # thorough: both containers for every outline; quick: alternating
+            for container in (("points", "numpy") if case["both_containers"] else (("points", "numpy")[vi % 2],)):
                 fl = [(emb.coord(x), emb.coord(y)) for x, y in verts]
                 arg = [Point(x, y) for x, y in fl] if container == "points" else np.array(fl, dtype=float)
                 ev = {"verts": verts}
@@ -194,13 +195,13 @@ def run_case(case):
 
 
 # ----------------------------------------------------------------------------------------- cases
-def poly_case(grid, salt, embs=ALL, origin="tlc"):
+def poly_case(grid, salt, embs=ALL, origin="tlc", both=True):
     loop = trace_outline(grid)
     if loop is None:
         return None
     nr, nc = len(grid), len(grid[0])
     return {"kind": "poly", "grid": grid, "xs": spacing(nc, salt), "yl": spacing(nr, salt // 3 + 1 if salt % 2 else 0),
-            "loop": loop, "salt": salt, "embs": list(embs), "origin": origin}
+            "loop": loop, "salt": salt, "embs": list(embs), "origin": origin, "both_containers": both}
 
 
 def random_grids(rng: random.Random, n: int) -> list:
@@ -329,7 +330,7 @@ def decide(ctx: Ctx, cases: list[dict]):
             ctx.sample({"origin": origin, "event": t["events"][-1]})
 
 
-def build_cases(grids, origin, poly_cells, seed, crop=False):
+def build_cases(grids, origin, poly_cells, seed, crop=False, both=True):
     cases = []
     for i in range(0, len(grids), GRIDS_PER_TRACE):
         cases.append({"kind": "grids", "grids": grids[i:i + GRIDS_PER_TRACE], "origin": origin})
@@ -338,7 +339,7 @@ def build_cases(grids, origin, poly_cells, seed, crop=False):
         if crop:
             g = cropped(g)
         if g is not None and len(g) * len(g[0]) <= poly_cells and trimmed(g):
-            pc = poly_case(g, salt=gi + seed, origin=origin)
+            pc = poly_case(g, salt=gi + seed, origin=origin, both=both)
             if pc is not None:
                 cases.append(pc)
                 k += 1
@@ -354,7 +355,7 @@ def run(ctx: Ctx) -> int:
         else:
             # every orientation / start vertex / container / embedding of that drawing is run again
             cases = [{"kind": "poly", "grid": e["grid"], "xs": e["xs"], "yl": e["ys"][::-1], "loop": trace_outline(e["grid"]),
-                      "salt": e.get("salt", 0), "embs": ALL, "origin": "replay"}]
+                      "salt": e.get("salt", 0), "embs": ALL, "origin": "replay", "both_containers": True}]
         decide(ctx, cases)
         return ctx.finish("model_checking", "replay of one recorded case")
     tier = ctx.tier
@@ -362,10 +363,10 @@ def run(ctx: Ctx) -> int:
     tlc.model_check(ctx, "Strop", f"Strop_mc_{tier}", coverage=False)
     printed = tlc.generate(ctx, "Strop", f"Strop_gen_{tier}")
     grids = [c["grid"] for c in printed]
-    cases, npoly = build_cases(grids, "tlc", 12, ctx.seed)
+    cases, npoly = build_cases(grids, "tlc", 12, ctx.seed, both=tier == "thorough")
     rng = random.Random(ctx.seed * 1000003 + 15)
     rgrids = random_grids(rng, 160 if tier == "quick" else 1600)
-    rcases, rpoly = build_cases(rgrids, "random", 64, ctx.seed, crop=True)
+    rcases, rpoly = build_cases(rgrids, "random", 64, ctx.seed, crop=True, both=tier == "thorough")
     decide(ctx, cases + rcases)
     st = ctx.extra["observed"]
     if min(st["grids_is_strop"], st["poly_decomposed"], st["poly_refused"], st["instances"]) == 0:
@@ -376,7 +377,8 @@ def run(ctx: Ctx) -> int:
     ctx.assumptions += [
         "grids are enumerated exhaustively up to the cfg bound (quick: <= 12 cells with sides <= 4; thorough: <= 16 cells with sides <= 5), randomly up to 8x8",
         "vertex lists: the outline of every enumerated grid of at most 12 cells that is one simple polygon and fills its bounding box, "
-        "both orientations, two start vertices, Point list and numpy rows, uniform or 1..3-step line spacing, 8 float embeddings",
+        "both orientations, two start vertices, Point list and numpy rows (quick: alternating, thorough: both for every outline), "
+        "uniform or 1..3-step line spacing, 8 float embeddings",
         "for grids of more than 12 cells the oracle of 'a decomposition exists' is the shadow characterisation, proved equal to the declarative definition by TLC on all grids of at most 12 cells",
         "a refusal of strop_decomposition (its assertion 'Polygon is not a STROP') is read as 'no decomposition reported'",
         "'recognised with the trunk first' is read as: Module.has_stog, the first rectangle carries TRUNK and every other rectangle abuts it (any valid trunk)",
